@@ -396,33 +396,41 @@ theorem normalize_bounded {d : Dec} (h : d.Bounded) : (normalize d).Bounded := b
       have : c' ≤ c' * 10 ^ k := Nat.le_mul_of_pos_right _ (Nat.pow_pos (by decide))
       omega
 
-theorem reduce_tail_bounded (neg : Bool) (c3 : Nat) (e3 : Int) (d3 : Nat) (s3 : Bool) (h3 : c3 ≤ MAXSIG) :
-    (if (roundEven 3 (scaleUp 40 c3 e3).1 (scaleUp 40 c3 e3).2 d3 s3).2 > EMAX then Dec.inf neg
-     else normalize (.fin neg (roundEven 3 (scaleUp 40 c3 e3).1 (scaleUp 40 c3 e3).2 d3 s3).1
-       (roundEven 3 (scaleUp 40 c3 e3).1 (scaleUp 40 c3 e3).2 d3 s3).2)).Bounded := by
-  have h4 := scaleUp_le 40 c3 e3 h3
-  have h5 := roundEven_le 3 _ (scaleUp 40 c3 e3).2 d3 s3 h4
+/-- the part of `reduce` after the digits have been dropped -/
+def reduceTail (neg : Bool) (r3 : Nat × Int × Nat × Bool) : Dec :=
+  if (roundEven 3 (scaleUp 40 r3.1 r3.2.1).1 (scaleUp 40 r3.1 r3.2.1).2 r3.2.2.1 r3.2.2.2).2 > EMAX then Dec.inf neg
+  else normalize (.fin neg (roundEven 3 (scaleUp 40 r3.1 r3.2.1).1 (scaleUp 40 r3.1 r3.2.1).2 r3.2.2.1 r3.2.2.2).1
+    (roundEven 3 (scaleUp 40 r3.1 r3.2.1).1 (scaleUp 40 r3.1 r3.2.1).2 r3.2.2.1 r3.2.2.2).2)
+
+def reduceLow (r1 : Nat × Int × Nat × Bool) : Nat × Int × Nat × Bool :=
+  dropLow (min ((EMIN - r1.2.1).toNat + 1) 60) r1.1 r1.2.1 r1.2.2.1 r1.2.2.2
+
+theorem reduce_eq (neg : Bool) (c : Nat) (e : Int) (st : Bool) :
+    reduce neg c e st = if c = 0 ∧ ¬ st then .fin neg 0 0 else
+      reduceTail neg (if (reduceLow (dropHigh (Nat.log2 (c + 1) + 2) c e 0 st)).2.1 < EMIN then (0, EMIN, 0, true)
+        else reduceLow (dropHigh (Nat.log2 (c + 1) + 2) c e 0 st)) := rfl
+
+theorem reduceTail_bounded (neg : Bool) (r3 : Nat × Int × Nat × Bool) (h3 : r3.1 ≤ MAXSIG) :
+    (reduceTail neg r3).Bounded := by
+  have h4 := scaleUp_le 40 r3.1 r3.2.1 h3
+  have h5 := roundEven_le 3 _ (scaleUp 40 r3.1 r3.2.1).2 r3.2.2.1 r3.2.2.2 h4
+  unfold reduceTail
   split
   · simp [Bounded]
   · exact normalize_bounded (d := .fin _ _ _) h5
 
 theorem reduce_bounded (neg : Bool) (c : Nat) (e : Int) (st : Bool) : (reduce neg c e st).Bounded := by
-  unfold reduce
+  rw [reduce_eq]
   split
   · simp [Bounded]
-  · have h1 := dropHigh_le (Nat.log2 (c + 1) + 2) c e 0 st (lt_pow10_log2 c)
-    generalize dropHigh (Nat.log2 (c + 1) + 2) c e 0 st = r1 at h1
-    obtain ⟨c1, e1, d1, s1⟩ := r1
-    simp only at h1 ⊢
-    have h2 := dropLow_le (min ((EMIN - e1).toNat + 1) 60) c1 e1 d1 s1
-    generalize dropLow (min ((EMIN - e1).toNat + 1) 60) c1 e1 d1 s1 = r2 at h2
-    obtain ⟨c2, e2, d2, s2⟩ := r2
-    simp only at h2 ⊢
-    by_cases hlt : e2 < EMIN
-    · simp only [hlt, if_true]
-      exact reduce_tail_bounded neg 0 EMIN 0 true (by decide)
-    · simp only [hlt, if_false]
-      exact reduce_tail_bounded neg c2 e2 d2 s2 (by omega)
+  · apply reduceTail_bounded
+    have h1 := dropHigh_le (Nat.log2 (c + 1) + 2) c e 0 st (lt_pow10_log2 c)
+    generalize dropHigh (Nat.log2 (c + 1) + 2) c e 0 st = r1 at h1 ⊢
+    have h2 : (reduceLow r1).1 ≤ MAXSIG := Nat.le_trans (dropLow_le _ r1.1 r1.2.1 r1.2.2.1 r1.2.2.2) h1
+    generalize reduceLow r1 = r2 at h2 ⊢
+    by_cases hlt : r2.2.1 < EMIN
+    · rw [if_pos hlt]; exact Nat.zero_le _
+    · rw [if_neg hlt]; exact h2
 
 theorem ofInt_bounded {i : Int} (h : i.natAbs ≤ MAXSIG) : (ofInt i).Bounded := by
   unfold ofInt
@@ -440,7 +448,7 @@ theorem parseFinish_bounded {s : PState} {neg : Bool} {d : Dec} (h : parseFinish
   unfold parseFinish at h
   by_cases h1 : (!s.caneof) = true
   · simp [h1] at h
-  · simp only [h1, if_false] at h
+  · simp only [h1] at h
     by_cases h2 : s.c = 0
     · simp only [h2, if_true] at h; cases h; simp [Bounded]
     · simp only [h2, if_false] at h
@@ -448,8 +456,8 @@ theorem parseFinish_bounded {s : PState} {neg : Bool} {d : Dec} (h : parseFinish
       · simp only [h3, if_true] at h
         by_cases h4 : s.eneg = true
         · simp only [h4, if_true] at h; cases h; simp [Bounded]
-        · simp only [h4, if_false] at h; cases h
-      · simp only [h3, if_false] at h
+        · simp only [h4] at h; cases h
+      · simp only [h3] at h
         generalize ((if s.eneg then -(s.exp : Int) else s.exp) - s.nfrac) = e at h
         by_cases h5 : e > EMAX + 39
         · simp only [h5, if_true] at h; cases h
@@ -472,18 +480,26 @@ theorem parseNumber_bounded {t : Bytes} {neg sep : Bool} {d : Dec} (h : parseNum
 
 theorem parse_bounded {t : Bytes} {d : Dec} (h : parse t = .ok d) : d.Bounded := by
   unfold parse at h
-  split at h
-  · cases h
-  · simp only at h
-    split at h
-    · cases h
-    · split at h
-      · cases h; simp [Bounded]
-      · split at h
-        · cases h; simp [Bounded]
-        · split at h
-          · cases h; simp [Bounded]
-          · exact parseNumber_bounded h
+  cases t with
+  | nil => cases h
+  | cons b0 rest0 =>
+    simp only at h
+    generalize (if b0 = 0x2B then (false, rest0) else if b0 = 0x2D then (true, rest0) else (false, b0 :: rest0)) = p at h
+    obtain ⟨neg, ds⟩ := p
+    simp only at h
+    by_cases h1 : ds.isEmpty = true
+    · simp [h1] at h
+    · simp only [h1] at h
+      by_cases h2 : ds.map lowerByte = [0x69, 0x6E, 0x66]
+      · simp only [h2, if_true] at h; cases h; simp [Bounded]
+      · simp only [h2] at h
+        by_cases h3 : ds.map lowerByte = [0x6E, 0x61, 0x6E]
+        · simp only [h3, if_true] at h; cases h; simp [Bounded]
+        · simp only [h3] at h
+          by_cases h4 : ds.map lowerByte = [0x69, 0x6E, 0x66, 0x69, 0x6E, 0x69, 0x74, 0x79]
+          · simp only [h4, if_true] at h; cases h; simp [Bounded]
+          · simp only [h4] at h
+            exact parseNumber_bounded h
 
 end Dec
 
